@@ -226,9 +226,11 @@ void Interpret::interp(ASTNode& n) {
                     if (tr == PTRef_Undef)
                         notify_formatted(true, "assertion returns an unknown sort");
                     else {
-                        assertions.push(tr);
                         try {
                             main_solver->insertFormula(tr);
+                            // Only an inserted formula gets a partition index: keep `assertions` aligned with it
+                            // (a rejected non-Bool term must not shift the indices used by get-interpolants)
+                            assertions.push(tr);
                             notify_success();
                         } catch (ApiException const & e) {
                             notify_formatted(true, "%s", e.what());
